@@ -23,6 +23,8 @@ TECHNIQUE = ("exhaustive enumeration of small statement lists x per-statement be
 RULE = ("A case is: n statements, each with a behaviour -- execute_async raises (real session: a bind error), completes before "
         "callbacks are attached with a result / an error, or completes later from another thread with a result / an error -- "
         "a concurrency, a completion priority (which outstanding execution completes next), and the entry point: "
+        "(real session also: a result of two pages that the consumer reads to the end as soon as it gets it, i.e. while "
+        "other statements are still outstanding with the generator variant) "
         "execute_concurrent list / generator / execute_concurrent_with_args, with and without raise_on_first_error, and "
         "execute_concurrent_async.  Exhaustive part: every n <= 3 x 5^n behaviours x concurrency 1..n+1 x every priority "
         "permutation x 7 entry points (n = 0 included).  Observed: returned list / generator items / future, exceptions, "
@@ -201,7 +203,9 @@ def _run_fake(case, ctx, sim, CC):
     ctx.nontrivial(len(set(k.split("-")[0] for k in kinds)) >= 2 and conc < n)
 
 
-def judge(case, ctx, kinds, entry, conc, out, finished, calls, completed, peak, cb_errors, flog, rows_of):
+def judge(case, ctx, kinds, entry, conc, out, finished, calls, completed, peak, cb_errors, flog, rows_of, expected_rows=None):
+    if expected_rows is None:
+        expected_rows = lambda i: [("ok", i)]  # noqa: E731
     n = len(kinds)
     ff = entry.endswith("-ff")
     fails = [i for i, k in enumerate(kinds) if not k.endswith("ok")]
@@ -250,7 +254,7 @@ def judge(case, ctx, kinds, entry, conc, out, finished, calls, completed, peak, 
                 return
             if want_ok:
                 rows = rows_of(val)
-                if [tuple(x) for x in rows] != [("ok", i)]:
+                if [tuple(x) for x in rows] != expected_rows(i):
                     ctx.fail(["C32.results", "order"] + feat, "%s: position %d holds %r" % (where, i, rows))
                     return
             elif not is_failure_of(val, i):
@@ -340,7 +344,7 @@ def _run_real(case, ctx, sim, CC):
     entry, conc = case["entry"], case["concurrency"]
     net = sim.net
     node = net.add_node("10.0.0.1")
-    state = {"held": 0, "peak": 0, "arrivals": [], "completed": []}
+    state = {"held": 0, "peak": 0, "arrivals": [], "completed": [], "page_fetches": 0}
 
     def idx_of(req):
         return int(req["query"].split("=")[-1])
@@ -348,7 +352,9 @@ def _run_real(case, ctx, sim, CC):
     def answer(conn, req, ok):
         i = idx_of(req)
         if ok:
-            node.reply(conn, req, "RESULT", S.result_rows_any([("tag", "text"), ("i", "int")], [["ok", i]], version=req["version"]))
+            ps = b"page2" if kinds[i] == "paged-ok" else None      # a first page that announces a second one
+            node.reply(conn, req, "RESULT", S.result_rows_any([("tag", "text"), ("i", "int")], [["ok", i]],
+                                                              version=req["version"], paging_state=ps))
         else:
             node.reply_error(conn, req, "invalid", "failed %d" % i)
 
@@ -356,6 +362,11 @@ def _run_real(case, ctx, sim, CC):
         if conn.is_control_connection or req["op"] != "QUERY" or not req["query"].startswith("SELECT x"):
             return None
         i = idx_of(req)
+        if req.get("paging_state"):
+            # the consumer iterates a result into its second page (not a new statement): answered at once, last page
+            state["page_fetches"] += 1
+            node.reply(conn, req, "RESULT", S.result_rows_any([("tag", "text"), ("i", "int")], [["ok2", i]], version=req["version"]))
+            return ("drop",)
         state["arrivals"].append(i)
         state["peak"] = max(state["peak"], state["held"] + 1)
         k = kinds[i]
@@ -396,6 +407,10 @@ def _run_real(case, ctx, sim, CC):
             stmts.append((SimpleStatement("SELECT x FROM t WHERE i=%d" % i), None))
     out = {}
 
+    def read_all(item):
+        ok, val = item
+        return (ok, [tuple(r) for r in val]) if ok else (ok, val)
+
     def caller():
         ff = entry.endswith("-ff")
         try:
@@ -404,9 +419,10 @@ def _run_real(case, ctx, sim, CC):
             elif entry.startswith("gen"):
                 out["items"] = []
                 for item in session.execute_concurrent(stmts, concurrency=conc, raise_on_first_error=ff, results_generator=True):
-                    out["items"].append(item)
+                    out["items"].append(read_all(item))      # while other statements are still outstanding
             else:
-                out["list"] = session.execute_concurrent(stmts, concurrency=conc, raise_on_first_error=ff)
+                out["list"] = [read_all(item) for item in
+                               session.execute_concurrent(stmts, concurrency=conc, raise_on_first_error=ff)]
         except Exception as e:  # noqa
             out["raised"] = e
     real_execute_async = session.execute_async
@@ -443,14 +459,36 @@ def _run_real(case, ctx, sim, CC):
         answer(conn, req, kinds[idx_of(req)].endswith("ok"))
     sim.settle()
     judge(case, ctx, [("x-err" if k == "raise" else k) for k in kinds], entry, conc, out, actor.done,
-          calls, list(state["completed"]), state["peak"], [], flog,
-          lambda r: r.current_rows if hasattr(r, "current_rows") else r)
+          calls, _first_completions(state["completed"]), state["peak"], [], flog,
+          lambda r: r.current_rows if hasattr(r, "current_rows") else r,
+          expected_rows=lambda i: [("ok", i), ("ok2", i)] if (kinds[i] == "paged-ok" and not entry.startswith("async")) else [("ok", i)])
+    if state["page_fetches"]:
+        ctx.label("real:page-fetched-during-run" if entry.startswith("gen") else "real:page-fetched")
     sim.call(cluster.shutdown)
     ctx.label("real:entry=" + entry, "real:n=%d" % min(n, 9))
     ctx.nontrivial(len(set(k.split("-")[0] for k in kinds)) >= 2 and conc < n)
 
 
+def _first_completions(seq):
+    out = []
+    for i in seq:
+        if i not in out:
+            out.append(i)
+    return out
+
+
 # ------------------------------------------------------------------ generation
+def real_paged_cases(chunk):
+    """results of more than one page, read to the end by the consumer while the run is still going"""
+    entry = chunk["entry"]
+    for kinds in (["paged-ok", "async-ok", "async-ok", "async-ok"], ["async-ok", "paged-ok", "async-err", "async-ok"],
+                  ["paged-ok", "paged-ok", "async-ok"], ["paged-ok"]):
+        asyncs = list(range(len(kinds)))
+        for conc in (1, 2):
+            for prio in (asyncs, asyncs[::-1]):
+                yield {"kinds": kinds, "entry": entry, "concurrency": conc, "priority": prio, "gran": "blocking", "tape": []}
+
+
 def enum_chunks():
     out = []
     for n in range(0, 4):
@@ -501,8 +539,8 @@ def s_fake(draw, gran):
 @st.composite
 def s_real(draw, gran):
     n = draw(st.integers(0, 8))
-    kinds = draw(st.lists(st.sampled_from(KINDS + ["async-ok", "async-ok"]), min_size=n, max_size=n))
-    asyncs = [i for i, k in enumerate(kinds) if k.startswith("async")]
+    kinds = draw(st.lists(st.sampled_from(KINDS + ["async-ok", "async-ok", "paged-ok", "paged-ok"]), min_size=n, max_size=n))
+    asyncs = [i for i, k in enumerate(kinds) if k.startswith("async") or k.startswith("paged")]
     return {"kinds": kinds, "entry": draw(st.sampled_from([e for e in ENTRIES if e != "args"])),
             "concurrency": draw(st.integers(1, n + 2)), "priority": list(draw(st.permutations(asyncs))), "gran": gran,
             "tape": draw(st.lists(st.integers(0, 3), max_size=40 if gran == "locks" else 6))}
@@ -515,6 +553,8 @@ def parts(tier):
         hyp_part("fake-large", lambda: s_fake("blocking"), interpret_fake, tier, quick=150, thorough=3000, quick_shards=2, thorough_shards=6),
         hyp_part("fake-locks", lambda: s_fake("locks"), interpret_fake, tier, quick=150, thorough=3000, quick_shards=2, thorough_shards=6),
         EnumPart("real-deep", [{"entry": e} for e in ("list", "gen", "async")], real_deep_cases, interpret_real),
+        EnumPart("real-paged", [{"entry": e} for e in ("gen", "gen-ff", "list", "list-ff", "async")], real_paged_cases,
+                 interpret_real),
         hyp_part("real-session", lambda: s_real("blocking"), interpret_real, tier, quick=80, thorough=1500, quick_shards=2, thorough_shards=4),
         hyp_part("real-locks", lambda: s_real("locks"), interpret_real, tier, quick=60, thorough=1000, quick_shards=2, thorough_shards=4),
     ]
